@@ -68,6 +68,13 @@ func genFaulty(r *simrt.RNG, tier string, variant int, prop string) Plan {
 	case 2:
 		cp.PingNs, cp.TimeoutNs = int64(2e9), int64(12e9)
 	}
+	if prop == "C03" && r.Bool(0.1) {
+		// own pings disabled, timeout kept: the read deadline alone must notice a
+		// silent peer (an idle healthy link may then be re-dialed every timeout,
+		// which is why the "no error before the fault" oracle is skipped here)
+		cp.PingNs, cp.TimeoutNs = -1, int64(30e9)
+		p.Params["noping"] = 1
+	}
 	bmin := Pick(r, []int64{int64(1e6), int64(20e6), int64(100e6), int64(500e6), int64(2e9)})
 	bmax := bmin * Pick(r, []int64{1, 3, 10})
 	if bmax > int64(10e9) {
@@ -231,7 +238,9 @@ func runFaulty(e *Env, p *Plan) {
 		}
 		e.Invariant("C05.d-backoff-spacing", func() string {
 			d := e.N.Dials()
-			if k := len(d); k >= 3 && d[k-2].Outcome != "ok" {
+			// any two consecutive redials: after a successful dial the next one can only
+			// follow a new loss plus at least the minimum back-off
+			if k := len(d); k >= 3 {
 				if gap := d[k-1].At - d[k-2].At; gap < min {
 					return fmt.Sprintf("redial attempts %d and %d are %v apart, below the configured minimum back-off %v (busy loop after %d consecutive failures)", k-2, k-1, gap, min, k-2)
 				}
@@ -382,6 +391,9 @@ func runFaulty(e *Env, p *Plan) {
 		w.CheckAllReturned("C03.hang")
 		w.CheckOwnResults("C03.foreign-result", true)
 		for _, t := range e.SortedToks() {
+			if p.Param("noping", 0) > 0 {
+				break
+			}
 			if t.Returned && t.ReturnAt < faultStep && t.Client == "A" && t.RetErr != nil && isConnErr(t.RetErr) {
 				e.Violate("C03.healthy-call-failed", "tok=%d returned a connection error at step %d, before any fault fired (step %d): %v", t.ID, t.ReturnAt, faultStep, t.RetErr)
 			}
@@ -533,9 +545,6 @@ func checkHealing(w *World, p *Plan, c0 ClientPlan, faultStep uint64) {
 	}
 	// (d) spacing between consecutive attempts of one outage: >= min apart.
 	for i := 1; i < len(re); i++ {
-		if re[i-1].Outcome == "ok" {
-			continue // a new outage starts its own back-off sequence
-		}
 		gap := re[i].At - re[i-1].At
 		if gap < min {
 			e.Violate("C05.d-backoff-spacing", "redial attempts %d and %d are %v apart, below the configured minimum back-off %v (busy loop)", i-1, i, gap, min)
